@@ -32,6 +32,7 @@ def run(ck):
     ck.rule("C18.R4", "log emission only until a collector is installed; at most one per path", floor=100)
     ck.rule("C18.R5", "`a collector has been installed` is sticky: set by both install paths, has_been_set() reads only that flag", floor=3)
     ck.rule("C18.R7", "normalized_metadata carries target, file, line and module path each from its own log field, independently", floor=1)
+    ck.rule("C18.R9", "EnteredSpan::exit exits once: the guard it consumes is left holding Span::none(), so its Drop has nothing to exit or log", floor=2)
     ck.rule("C18.R6", "LogTracer builder options accumulate: no builder call discards an ignored prefix or the max level", floor=3)
     F = Facts("default")
     ck.configs.append("default")
@@ -44,6 +45,47 @@ def run(ck):
     r2(ck, F)
     r3(ck, F)
     r4(ck)
+    r9(ck)
+
+
+def r9(ck):
+    """With the `log` feature Span::do_exit and Drop for Span log from the span's *metadata*, not from its collector
+    handle. EnteredSpan::exit hands the span back and then drops the guard, whose Drop calls do_exit again and drops
+    whatever span was left in it: that leftover must be Span::none() (no metadata, no handle), or the exit is logged
+    twice and a close is logged for a span that is still alive."""
+    from rulekit.query import drop_blocks
+    L = Facts("log")
+    b = L.body("tracing::span::EnteredSpan::exit")
+    key = "EnteredSpan::exit leaves Span::none() in the guard it drops"
+    if not ck.anchor("C18.R9", "tracing::span::EnteredSpan::exit", b):
+        return
+    exits = [bb for bb, t in b.calls() if t["callee"].get("path") == "tracing::span::Span::do_exit"]
+    drops = [bb for bb in drop_blocks(b, 1) if not b.blocks[bb].get("cleanup")]
+    forgets = [bb for bb, t in b.calls() if t["callee"].get("path") == "core::mem::forget"]
+    dom = b.dominators()
+    # the write that empties the guard: mem::replace / assignment of a value originating in Span::none()
+    empt = []
+    for bb, t in b.calls():
+        if t["callee"].get("path") in ("core::mem::replace", "core::mem::swap") and len(t["argv"]) == 2:
+            dst, src = b.origin(t["argv"][0]), b.origin(t["argv"][1])
+            if dst[0] == "arg" and dst[1] == 1 and len(dst[2]) == 1 and src[0] == "call" and src[2]["callee"].get("path") == "tracing::span::Span::none":
+                empt.append(bb)
+    for i, j, st in b.stmts():
+        if st["k"] == "assign" and st["lhs"]["l"] == 1 and [p for p in st["lhs"].get("p", []) if p != "*"] and "use" in st["rv"]:
+            src = b.origin(st["rv"]["use"])
+            if src[0] == "call" and src[2]["callee"].get("path") == "tracing::span::Span::none":
+                empt.append(i)
+    if len(exits) == 1:
+        ck.ok("C18.R9", "EnteredSpan::exit calls do_exit once", fn=b.path)
+    else:
+        ck.bad("C18.R9", "EnteredSpan::exit calls do_exit once", where(b.raw["sp"]), "%d calls" % len(exits), fn=b.path)
+    if forgets and not drops:
+        ck.ok("C18.R9", key, fn=b.path, detail="guard forgotten, never dropped")
+    elif drops and all(any(e in dom[d] for e in empt) for d in drops):
+        ck.ok("C18.R9", key, fn=b.path, detail={"emptied_at": empt, "dropped_at": drops})
+    else:
+        ck.bad("C18.R9", key, where(b.raw["sp"]), "the guard is dropped at %s but its span is not replaced by Span::none() before that (replacements: %s): "
+               "what stays behind keeps its metadata, so Drop logs a second exit and a close" % (drops, empt), fn=b.path)
 
 
 def r1(ck, F):
